@@ -12,6 +12,20 @@ import (
 
 func strJoin(joiner, subject rel.Value) (rel.Value, error) {
 	strs := subject.(rel.Set)
+	if g, is := strs.(rel.GenericSet); is {
+		// a generic set can only be walked as an array if its members are positioned items
+		for e := g.Enumerator(); e.MoveNext(); {
+			positioned := false
+			if t, isTuple := e.Current().(rel.Tuple); isTuple {
+				if at, has := t.Get("@"); has {
+					_, positioned = at.(rel.Number)
+				}
+			}
+			if !positioned {
+				return nil, fmt.Errorf("//seq.join: subject not an array: %v", subject)
+			}
+		}
+	}
 	toJoin := make([]string, 0, strs.Count())
 	index := 0
 	for i := strs.ArrayEnumerator(); i.MoveNext(); index++ {
